@@ -394,8 +394,9 @@ example : validate trait.SET_TRAITS_FOR_RP_SCHEMA
 
 /-! ## (f) names accepted by the custom-name patterns (also used by C19)
 
-`^CUSTOM_[A-Z0-9_]+$` under `re.search`: Python's `$` also matches before a trailing newline, so the
-pattern accepts `CUSTOM_X\n` (DESIGN §9-J). -/
+`^CUSTOM_[A-Z0-9_]+\Z` under `re.search`.  The pattern used to end in `$`, which in Python also matches before a
+trailing newline, so `CUSTOM_X\n` was accepted (DESIGN §9-J, repaired by a `fix:` commit; the old pattern is
+kept below as `dollarPattern` with the proof that it is NOT well-formed, so the difference stays visible). -/
 
 def isNameChar (c : Char) : Bool := inClass false [('A', 'Z'), ('0', '9'), ('_', '_')] c
 
@@ -426,28 +427,33 @@ theorem isCustomName_iff {s : List Char} :
       have : stripPrefix customPrefix s = some t := stripPrefix_eq_some.mpr h3
       rw [hn] at this; cases this
 
-/-- full statement: every accepted name has the form CUSTOM_[A-Z0-9_]+ (false for the pattern in the tree) -/
+/-- full statement: every accepted name has the form CUSTOM_[A-Z0-9_]+ -/
 def custom_name_wellformed (re : Re) : Prop :=
   ∀ s : List Char, Regex.matches re s = true → isCustomName s = true
 
-theorem custom_rc_name_wellformed_witness :
-    Regex.matches common.CUSTOM_RC_PATTERN "CUSTOM_X\n".toList = true ∧ isCustomName "CUSTOM_X\n".toList = false := by
+/-- the pattern as it was before the repair: `^CUSTOM_[A-Z0-9_]+$` -/
+def dollarPattern : Re :=
+  .seq .bol (.seq (.lit customPrefix) (.seq (.rep (.cls false [('A', 'Z'), ('0', '9'), ('_', '_')]) 1 none) .eol))
+
+/-- `$` is not enough: the old pattern accepts a name that ends in a newline -/
+theorem dollarPattern_witness :
+    Regex.matches dollarPattern "CUSTOM_X\n".toList = true ∧ isCustomName "CUSTOM_X\n".toList = false := by
   decide
 
-theorem custom_trait_name_wellformed_witness :
-    Regex.matches common.CUSTOM_TRAIT_PATTERN "CUSTOM_T\n".toList = true ∧
-      isCustomName "CUSTOM_T\n".toList = false := by
+theorem dollarPattern_not_wellformed : ¬ custom_name_wellformed dollarPattern := fun h =>
+  absurd (h _ dollarPattern_witness.1) (by rw [dollarPattern_witness.2]; decide)
+
+/-- the former witnesses are rejected by the patterns in the tree -/
+theorem custom_rc_rejects_trailing_newline :
+    Regex.matches common.CUSTOM_RC_PATTERN "CUSTOM_X\n".toList = false ∧
+    Regex.matches common.CUSTOM_TRAIT_PATTERN "CUSTOM_T\n".toList = false := by
   decide
 
-theorem custom_rc_name_wellformed_refuted : ¬ custom_name_wellformed common.CUSTOM_RC_PATTERN := fun h =>
-  absurd (h _ custom_rc_name_wellformed_witness.1) (by rw [custom_rc_name_wellformed_witness.2]; decide)
-
-/-- what the pattern `^CUSTOM_[A-Z0-9_]+$` accepts, exactly one direction: a custom name, possibly followed by
-one newline -/
+/-- what the pattern `^CUSTOM_[A-Z0-9_]+\Z` accepts: custom names only -/
 theorem custom_pattern_accepts {s : List Char}
     (h : Regex.matches (.seq .bol (.seq (.lit customPrefix)
-          (.seq (.rep (.cls false [('A', 'Z'), ('0', '9'), ('_', '_')]) 1 none) .eol))) s = true) :
-    isCustomName s = true ∨ ∃ t, s = t ++ ['\n'] ∧ isCustomName t = true := by
+          (.seq (.rep (.cls false [('A', 'Z'), ('0', '9'), ('_', '_')]) 1 none) .eos))) s = true) :
+    isCustomName s = true := by
   rw [matches_bol] at h
   obtain ⟨e, he⟩ := h
   rw [mem_ends_seq] at he
@@ -457,45 +463,26 @@ theorem custom_pattern_accepts {s : List Char}
   rw [mem_ends_seq] at he
   obtain ⟨m2, hm2, he⟩ := he
   obtain ⟨pre, hr, hall, hlen, _, _, _⟩ := mem_ends_rep_cls hm2
-  rw [mem_ends_eol] at he
-  obtain ⟨hend, _⟩ := he
+  rw [mem_ends_eos] at he
+  obtain ⟨h0, _⟩ := he
   simp only at hs hr
   have hpre : pre ≠ [] := by intro hp; subst hp; simp at hlen
-  rcases hend with h0 | h1
-  · left
-    rw [isCustomName_iff]
-    refine ⟨pre, hpre, hall, ?_⟩
-    rw [hs, hr, h0]; simp [customPrefix]
-  · right
-    refine ⟨customPrefix ++ pre, ?_, ?_⟩
-    · rw [hs, hr, h1]; simp [customPrefix]
-    · rw [isCustomName_iff]; exact ⟨pre, hpre, hall, rfl⟩
+  rw [isCustomName_iff]
+  refine ⟨pre, hpre, hall, ?_⟩
+  rw [hs, hr, h0]; simp [customPrefix]
 
-theorem custom_rc_pattern_accepts {s : List Char} (h : Regex.matches common.CUSTOM_RC_PATTERN s = true) :
-    isCustomName s = true ∨ ∃ t, s = t ++ ['\n'] ∧ isCustomName t = true :=
-  custom_pattern_accepts h
+/-- FULL: every string the class-name pattern accepts is CUSTOM_ followed by one or more of A-Z, 0-9, _ -/
+theorem custom_rc_name_wellformed : custom_name_wellformed common.CUSTOM_RC_PATTERN :=
+  fun _ h => custom_pattern_accepts h
 
-theorem custom_trait_pattern_accepts {s : List Char} (h : Regex.matches common.CUSTOM_TRAIT_PATTERN s = true) :
-    isCustomName s = true ∨ ∃ t, s = t ++ ['\n'] ∧ isCustomName t = true :=
-  custom_pattern_accepts h
+/-- FULL: same for the trait-name pattern -/
+theorem custom_trait_name_wellformed : custom_name_wellformed common.CUSTOM_TRAIT_PATTERN :=
+  fun _ h => custom_pattern_accepts h
 
-/-- names without a newline: the pattern does what its author meant -/
-theorem custom_rc_name_wellformed_partial {s : List Char} (hnl : '\n' ∉ s)
-    (h : Regex.matches common.CUSTOM_RC_PATTERN s = true) : isCustomName s = true := by
-  rcases custom_rc_pattern_accepts h with h1 | ⟨t, rfl, _⟩
-  · exact h1
-  · exact absurd (by simp) hnl
-
-theorem custom_trait_name_wellformed_partial {s : List Char} (hnl : '\n' ∉ s)
-    (h : Regex.matches common.CUSTOM_TRAIT_PATTERN s = true) : isCustomName s = true := by
-  rcases custom_trait_pattern_accepts h with h1 | ⟨t, rfl, _⟩
-  · exact h1
-  · exact absurd (by simp) hnl
-
-/-- the name `POST /resource_classes` creates: at most 255 code points, custom form up to the trailing newline -/
+/-- the name `POST /resource_classes` creates: at most 255 code points, custom form -/
 theorem created_class_name (j : Json) (h : validate resource_class.POST_RC_SCHEMA_V1_2 j = true) :
     ∃ kvs name, j = .obj kvs ∧ lookup "name" kvs = some (.str name) ∧ name.toList.length ≤ 255 ∧
-      (isCustomName name.toList = true ∨ ∃ t, name.toList = t ++ ['\n'] ∧ isCustomName t = true) := by
+      isCustomName name.toList = true := by
   have hs := POST_RC_SCHEMA_V1_2_shape j h
   simp only [rcShape, sat_field_iff] at hs
   obtain ⟨kvs, rfl, _, hname, hreq⟩ := hs
@@ -503,16 +490,28 @@ theorem created_class_name (j : Json) (h : validate resource_class.POST_RC_SCHEM
   have hsv := hname v hv
   cases v <;> simp [sat] at hsv
   rename_i name
-  exact ⟨kvs, name, rfl, hv, hsv.2, custom_rc_pattern_accepts hsv.1⟩
+  exact ⟨kvs, name, rfl, hv, hsv.2, custom_rc_name_wellformed _ hsv.1⟩
+
+/-- the name `PUT /resource_classes/{name}` (>= 1.7) creates: the handler validates `{"name": <name>}` -/
+theorem put_class_name (j : Json) (h : validate resource_class.PUT_RC_SCHEMA_V1_2 j = true) :
+    ∃ kvs name, j = .obj kvs ∧ lookup "name" kvs = some (.str name) ∧ name.toList.length ≤ 255 ∧
+      isCustomName name.toList = true := by
+  have hs := PUT_RC_SCHEMA_V1_2_shape j h
+  simp only [rcShape, sat_field_iff] at hs
+  obtain ⟨kvs, rfl, _, hname, hreq⟩ := hs
+  obtain ⟨v, hv⟩ := Option.isSome_iff_exists.mp (hreq trivial)
+  have hsv := hname v hv
+  cases v <;> simp [sat] at hsv
+  rename_i name
+  exact ⟨kvs, name, rfl, hv, hsv.2, custom_rc_name_wellformed _ hsv.1⟩
 
 /-- the name `PUT /traits/{name}` creates -/
 theorem created_trait_name (j : Json) (h : validate trait.CUSTOM_TRAIT j = true) :
-    ∃ name, j = .str name ∧ name.toList.length ≤ 255 ∧
-      (isCustomName name.toList = true ∨ ∃ t, name.toList = t ++ ['\n'] ∧ isCustomName t = true) := by
+    ∃ name, j = .str name ∧ name.toList.length ≤ 255 ∧ isCustomName name.toList = true := by
   have hs := CUSTOM_TRAIT_shape j h
   cases j <;> simp [customTraitShape, sat] at hs
   rename_i name
-  exact ⟨name, rfl, hs.2, custom_trait_pattern_accepts hs.1⟩
+  exact ⟨name, rfl, hs.2, custom_trait_name_wellformed _ hs.1⟩
 
 
 /-! ## (c) the error body
